@@ -647,5 +647,6 @@ func main() {
 	fmt.Fprintf(&lb, "/-- stdlib setproduct: per-argument and total length thresholds of the unknown-length refinement -/\ndef setproductArgMaxLen : Nat := %d\ndef setproductMaxLength : Nat := %d\n", cmpConst(sl, "argMaxLen", ">"), cmpConst(sl, "maxLength", ">"))
 	lb.WriteString("\nend CtyModel.Generated\n")
 	writeIfChanged(filepath.Join(*leanDir, "Limits.lean"), lb.String())
+	writeIntBounds(*repo, *leanDir, hdr) // C18: gocty integer bound tables (intbounds.go)
 	fmt.Printf("ctyextract: %d stdlib functions, %d op prologues, %d delimiters, %d+%d primitive conversions\n", len(fns), len(ps), len(rs), len(safe), len(unsafe))
 }
